@@ -150,6 +150,7 @@ type VC struct {
 	assertSet map[string]bool
 	nonNilGlobs []string
 	ldCache     map[string][]string
+	atCallSeen  map[string]int
 }
 
 type loopInfo struct {
